@@ -164,8 +164,14 @@ def _run(rec, rng, sim, R, srv, asyncm, path, V, case):
     for it in items:
         if it[0] == 'm':
             uid, data, wire = R.up_payload(s, it[1])
-            pieces.append(wire if not (on_ws and it[1] == 'binary')
-                          else bytes(data))
+            if on_ws and it[1] == 'binary':
+                # a driver may deliver a binary frame as bytes or as a
+                # mutable buffer; the handler gets bytes either way
+                sim.raw_bytearray = True
+                pieces.append(bytes(data) if rng.random() < 0.5
+                              else bytearray(data))
+            else:
+                pieces.append(wire)
             expect_all.append(('message', gen.expected_roundtrip(data)))
             if fate == 'alive' and not whole_reject:
                 expect.append(('message', gen.expected_roundtrip(data)))
@@ -225,6 +231,12 @@ def _run(rec, rng, sim, R, srv, asyncm, path, V, case):
             [e for e in sim.events[n0:] if e['sid'] == other.sid],))
     if any(e['sid'] not in (s.sid, other.sid) for e in sim.events[n0:]):
         V('cross-talk', 'events for an unknown sid')
+    for ev in gm:
+        if gen.is_binary(ev[1]) and type(ev[1]) is not bytes:
+            V('binary-payload-not-bytes', 'the message handler was given a %s '
+              'for a binary payload (the API hands out bytes)' %
+              type(ev[1]).__name__)
+            break
     rec.count('message_exactly_once', len(expect))
     if whole_reject:
         rec.count('whole_body_rejected')
